@@ -154,14 +154,19 @@ def rational_quadratic_spline(
         # (in float32 already for moderately non-uniform bins) can leave either a hair outside,
         # which used to trip the assertion or make the log-derivative below NaN.
         assert (discriminant >= -1e-4 * b.pow(2)).all()
-        discriminant = torch.clamp(discriminant, min=0)
+        positive = discriminant > 0
+        sqrt_discriminant = torch.where(
+            positive,
+            torch.sqrt(torch.where(positive, discriminant, torch.ones_like(discriminant))),
+            torch.zeros_like(discriminant),
+        )
 
-        root = (2 * c) / (-b - torch.sqrt(discriminant))
-        root = torch.clamp(root, 0, 1)
+        root = (2 * c) / (-b - sqrt_discriminant)
+        root = torchutils.clamp_preserve_gradients(root, 0, 1)
         # root = (- b + torch.sqrt(discriminant)) / (2 * a)
         outputs = root * input_bin_widths + input_cumwidths
         # left-knot + width can exceed the right end of the box by one ulp
-        outputs = torch.clamp(outputs, left, right)
+        outputs = torchutils.clamp_preserve_gradients(outputs, left, right)
 
         theta_one_minus_theta = root * (1 - root)
         denominator = input_delta + (
@@ -190,7 +195,7 @@ def rational_quadratic_spline(
         outputs = input_cumheights + numerator / denominator
         # Like the other splines, never leave [bottom, top] by a rounding error: an output of
         # top + 1 ulp is rejected by whatever bounded transform comes next (e.g. a Logit).
-        outputs = torch.clamp(outputs, bottom, top)
+        outputs = torchutils.clamp_preserve_gradients(outputs, bottom, top)
 
         derivative_numerator = input_delta.pow(2) * (
             input_derivatives_plus_one * theta.pow(2)
